@@ -271,6 +271,7 @@ func loadKnown() map[string]KnownEntry {
 
 // Main is the entry point of cmd/vcheck.
 func Main(args []string) int {
+	ensureEnv()
 	if len(args) >= 2 && args[0] == "replay" {
 		return replayMain(args[1])
 	}
@@ -692,4 +693,23 @@ func RunWorker(name string, stdin []byte, args ...string) (stdout []byte, stderr
 	cmd.Stderr = &e
 	err = cmd.Run()
 	return []byte(o.String()), []byte(e.String()), err
+}
+
+// ensureEnv pins the toolchain for `go list` (spawned by packages.Load inside
+// gengo) and for the compile-and-run back end, also when the binary is started
+// without the wrapper script.
+func ensureEnv() {
+	const tc = "/root/go/pkg/mod/golang.org/toolchain@v0.0.1-go1.24.2.linux-amd64"
+	if _, err := os.Stat(tc + "/bin/go"); err == nil {
+		if !strings.HasPrefix(os.Getenv("PATH"), tc+"/bin:") {
+			os.Setenv("PATH", tc+"/bin:"+os.Getenv("PATH"))
+		}
+		os.Setenv("GOROOT", tc)
+	}
+	os.Setenv("GOTOOLCHAIN", "local")
+	os.Setenv("GOFLAGS", "-mod=mod")
+	os.Setenv("GOPROXY", "off")
+	if os.Getenv("VERIF_ROOT") == "" {
+		os.Setenv("VERIF_ROOT", "/verif")
+	}
 }
